@@ -73,6 +73,10 @@ def replay_path(prop, n, ext="script"):
     return os.path.join(env.REPLAYS, "%s-%d.%s" % (prop, n, ext))
 
 
+# directed concurrent families judged by a life-cycle property (vlib/concrace.py)
+CONC_FAMILIES = {"C05": "cleanup-race", "C09": "load-race", "C12": "load-race", "C01": "load-race"}
+
+
 def write_replay(prop, n, header_lines, body, ext="script"):
     p = replay_path(prop, n, ext)
     with open(p, "w") as f:
@@ -427,10 +431,17 @@ def check_lifecycle(prop, tier, seed, replay=None):
         "unit, so that idle times and ages equal to a configured duration occur",
     ]
     evaluate(prop, results, rep, hbin, directed, counter, shrink_budget=(30 if tier == "quick" else 120))
-    if prop == "C07" and not replay:
+    if prop in ("C07", "C02") and not replay:
+        # an ended session under concurrency (C07); for C02 the same family reads "the ID of a destroyed session grants nothing"
         from . import conc07
         try:
-            conc07.destroy_race(rep, tier, seed, counter)
+            conc07.destroy_race(rep, tier, seed, counter, prop=prop)
+        except env.BuildError:
+            pass
+    if prop in CONC_FAMILIES and not replay:
+        from . import concrace
+        try:
+            concrace.run(rep, prop, CONC_FAMILIES[prop], tier, seed, counter)
         except env.BuildError:
             pass
     if prop == "C04" and not replay:
